@@ -62,8 +62,12 @@ CbItem(m0, e, c, l) ==
     ELSE
     LET a == c.i[1] IN
     IF c.n = "task_start" THEN
-        LET m1 == Begin(m, l, c.s) IN
-        IF KindOfName(c.s) # "" THEN
+        LET m1 == Begin(m, l, c.s)
+            \* a time synchronisation is a user task only if one is at the head of the association's queue;
+            \* otherwise it is the automatic one of the start-up sequence
+            userTask == KindOfName(c.s) # "" /\ (c.s # "TimeSync" \/ (QOf(m, a) # <<>> /\ QOf(m, a)[1].kind = "time"))
+        IN
+        IF userTask THEN
             LET qa == QOf(m1, a)
                 okHead == qa # <<>> /\ qa[1].kind = KindOfName(c.s)
                 m2 == IF ~okHead THEN V(m1, "fifo", l, "user task started that is not the oldest accepted request of its association: " \o c.s) ELSE m1
